@@ -4,7 +4,7 @@ import fcntl, hashlib, json, os, random, re, shutil, subprocess, sys, time
 VERIF = os.path.dirname(os.path.dirname(os.path.abspath(__file__)))
 REPO = os.environ.get("GDSL_REPO", "/repo")
 CACHE = os.environ.get("VERIF_CACHE") or os.path.join(VERIF, ".cache")
-COQ = os.path.join(VERIF, "coq")
+COQ = os.environ.get("VERIF_COQ") or os.path.join(VERIF, "coq")
 HARNESS_BIN = os.path.join(CACHE, "target", "release", "gdsl_verif_harness")
 MODEL_BIN = os.path.join(CACHE, "ocaml", "model_driver")
 RUSTFLAGS = "--cfg gdsl_verif --check-cfg cfg(gdsl_verif)"
@@ -114,14 +114,15 @@ def write_coqproject():
 def build_coq(targets=None, timeout=3000):
     """full .vo build through coq_makefile; targets: list of .vo paths relative to coq/ (None = all)"""
     os.makedirs(os.path.join(COQ, "gen"), exist_ok=True)
-    if not os.path.exists(os.path.join(COQ, "gen", "TypesGen.v")):
-        # C16's declarations are regenerated from the source by its check; make sure a first build has them
-        sh([sys.executable, os.path.join(VERIF, "tools", "rs2coq_types.py"), REPO])
+    # C16's declarations are ALWAYS regenerated from the current source (never committed, never reused across trees);
+    # the file is only rewritten when its content changes, so unchanged sources cost no recompilation
+    sh([sys.executable, os.path.join(VERIF, "tools", "rs2coq_types.py"), REPO, os.path.join(COQ, "gen", "TypesGen.v")])
     changed = write_coqproject()
     if changed or not os.path.exists(os.path.join(COQ, "Makefile")):
         sh("coq_makefile -f _CoqProject -o Makefile", cwd=COQ, check=True)
     tgt = " ".join(targets) if targets else ""
-    rc, out = sh("timeout %d make -j16 %s" % (timeout, tgt), cwd=COQ, timeout=timeout + 60)
+    # -k: one broken proof must not keep the model (and the other properties' proofs) from being built
+    rc, out = sh("timeout %d make -k -j16 %s" % (timeout, tgt), cwd=COQ, timeout=timeout + 60)
     return rc, out
 
 
